@@ -92,8 +92,8 @@ TEXTS["C13"] = dict(
     level_note=TRUST2 + " Faults during commit are outside this property (C13 covers prepare/execute/contribute).")
 TEXTS["C16"] = dict(
     technique="deterministic cluster simulation: complete caller-identity x message x session-state table through the real receiver handlers (fake clock for expiry) + share-ownership monitor on the simulated transport",
-    level_text="The 180-case table {peer, fully-permitted ordinary client, empty, unknown, peer name in other case, peer name with suffix} x {prepare, execute, contribute, commit, abort} x "
-               "{none, prepared, executed, committed, aborted, expired} is enumerated completely on a 3-instance cluster of real services: a non-peer must get an error and no share, and "
+    level_text="The 210-case table {peer, peer outside the generation, fully-permitted ordinary client, empty, unknown, peer name in other case, peer name with suffix} x {prepare, execute, contribute, commit, abort} x "
+               "{none, prepared, executed, committed, aborted, expired} is enumerated completely on a 4-instance cluster (3 participants) of real services: a non-peer must get an error and no share, and "
                "the legitimate run must continue from that state to a committed account on every participant (so a refused message created, deleted or altered nothing). A monitor "
                "checks every contribution the transport carries (here and in seeded generations with drawn n, t and id sets): the share equals the originator's vector evaluated at the "
                "recipient's id and at no other participant's id; a peer replaying a consistent contribution gets only its own share back.",
